@@ -20,7 +20,7 @@ def levels(tier):
     if tier == "quick":
         return [
             {"name": "typed-n1", "kind": "typed", "n": 1, "alphabet": ["page", "links", "we", "rule", "batch"], "links_batch": 1, "batch_targets": 1,
-             "defaults": ["domain"], "anchored": [None, (1, 3, "path1")], "overwrite": [False], "rule_patterns": ["path1"]},
+             "defaults": ["domain"], "anchored": [None, (1, 3, "path1")], "overwrite": [False, True], "rule_patterns": ["path1"]},
             {"name": "typed-n2", "kind": "typed", "n": 2, "alphabet": ["page", "we"], "defaults": ["domain"], "anchored": [(1, 3, "path1")],
              "overwrite": [False], "tpool": [0, 1]},
             {"name": "clear-n3", "kind": "typed", "n": 3, "alphabet": ["page", "links", "clear"], "links_batch": 1, "defaults": ["domain"],
